@@ -201,7 +201,18 @@ def api_correspondence(ctx, tg, tga):
         itext.append("kick %s %s %d %d %d %s\n" % (cid, d, n, nb, it, " ".join(fhex(o) for o in offs)))
     rc, out, err = run_driver(tg["impl_bounds"], "".join(itext), env=vp_build.xdg_env())
     if rc != 0:
-        raise RuntimeError("impl_bounds (std): rc=%d %s" % (rc, err[-600:]))
+        # the harness died on one of the cases the model declares in bounds / defined: locate it and report it with its input
+        bad = None
+        for line in itext:
+            r2, _, e2 = run_driver(tg["impl_bounds"], line, env=vp_build.xdg_env())
+            if r2 != 0:
+                bad, err = line, e2 or err
+                rc = r2
+                break
+        ctx.violation("impl-oracle", "the API harness (plain build) dies with status %d on a case the model declares in bounds / defined" % rc,
+                      case=dict(kind="api-crash", line=(bad or "(not reproduced case by case)")[:400]), observed=(err or "")[-400:],
+                      sig=dict(stage="api-crash", case=(bad or "").split(" ")[0]))
+        return dis
     impl = parse_cases(out)
 
     def disagree(kind, cid, detail, case):
